@@ -199,7 +199,7 @@ def history_cases(draw, focus=None, faults=False, min_ops=1, max_ops=6,
         eff = effective_faults(cfg)
 
         def one_fault(k):
-            if eff and draw(st.integers(0, 3)) > 0:
+            if eff and draw(st.integers(0, 2)) > 0:
                 forced.add(k)
                 return draw(st.sampled_from(eff))
             return draw(st.sampled_from(FAULTS))
@@ -1185,7 +1185,7 @@ PROPERTY = Property(
                  rule=_RULE + " with malformed add() calls interleaved; raw /event_indices: "
                  "every (start,length) inside its table, rows of different events disjoint, "
                  "particle row count per event",
-                 floors={"rejected_late": 0.15, "rejected_between_accepted": 0.1},
+                 floors={"rejected_late": 0.15, "rejected_between_accepted": 0.08},
                  classify=classify_index, shrink_cap=(60, 300)),
         SubCheck("reject_raises", history_cases(faults=True), check_raises,
                  quick=200, thorough=10000,
@@ -1193,32 +1193,32 @@ PROPERTY = Property(
                  "triggered=None, dict without 'global', ray/polarization length mismatches, "
                  "per-waveform list too short): rejected exactly when the options need the "
                  "malformed argument, with the documented error type",
-                 floors={"rejected": 0.35, "malformed_but_unused": 0.15, "rejected_late": 0.15}),
+                 floors={"rejected": 0.4, "malformed_but_unused": 0.03, "rejected_late": 0.2}),
         SubCheck("reject_len", history_cases(faults=True), check_len_only,
                  quick=160, thorough=8000,
                  rule=_RULE + " with malformed add() calls; len(file) and the number of "
                  "iterated events equal the number of accepted calls",
-                 floors={"rejected": 0.3, "rejected_between_accepted": 0.15},
+                 floors={"rejected": 0.4, "rejected_between_accepted": 0.12},
                  classify=classify_len, shrink_cap=(60, 300)),
         SubCheck("reject_iter", history_cases(faults=True),
                  make_roundtrip(ALL_PARTS, check_len=False),
                  quick=160, thorough=8000,
                  rule=_RULE + " with malformed add() calls; all data of every accepted event "
                  "by sequential iteration",
-                 floors={"rejected": 0.35},
+                 floors={"rejected": 0.4},
                  classify=classify_roundtrip, shrink_cap=(60, 300)),
         SubCheck("reject_index", history_cases(faults=True, slice_ranges=(None,)),
                  make_roundtrip(ALL_PARTS, mode="index", check_len=False),
                  quick=160, thorough=8000,
                  rule=_RULE + " with malformed add() calls; all data of every accepted event "
                  "by integer indexing file[i]",
-                 floors={"rejected": 0.25, "rejected_late": 0.12},
+                 floors={"rejected": 0.4, "rejected_late": 0.2},
                  classify=classify_roundtrip, shrink_cap=(60, 300)),
         SubCheck("thrown", history_cases(faults=True), check_thrown,
                  quick=160, thorough=8000,
                  rule=_RULE + " with malformed add() calls; total_events_thrown equals the sum "
                  "of events_thrown of the accepted calls",
-                 floors={"rejected": 0.15},
+                 floors={"rejected": 0.2},
                  classify=classify_thrown, shrink_cap=(60, 300)),
         SubCheck("components_nowave", history_cases(nowave_probe=True, max_ops=4), check_nowave,
                  quick=120, thorough=6000,
